@@ -1,6 +1,6 @@
 (* C11 - loaded-runner limit, one runner per model, reuse when compatible.   Theorems only. *)
 From Coq Require Import List ZArith NArith Bool Lia Arith.
-From V Require Import Sched.Lts Sched.Reach Sched.InvLock Sched.InvStruct Sched.InvCount Sched.Thm Sched.Refute Sched.Examples.
+From V Require Import Sched.Lts Sched.Reach Sched.InvLock Sched.InvStruct Sched.InvCount Sched.Thm Sched.ThmVictim Sched.Refute Sched.Examples.
 Import ListNotations.
 
 (* Reuse: when the pending loop looks up a request's model and finds a runner, it goes on to needsReload for that
@@ -70,3 +70,19 @@ Definition C11_one_per_model_full : Prop := one_per_model_full.
 Theorem C11_one_per_model_refuted : ~ C11_one_per_model_full.
 Proof. exact one_per_model_refuted. Qed.
 Print Assumptions C11_one_per_model_refuted.
+
+(* Making room (findRunnerToUnload): the candidates are the registered runners in non-decreasing (keep-alive,
+   model path) order; the first candidate found idle (refCount 0, read under its refMu) is the victim; when every
+   candidate is busy the victim is the first of that order.  (Any state, any configuration.) *)
+Theorem C11_victim_order :
+  forall s l, Sorted.LocallySorted (vle s) (vsort s l) /\ Permutation.Permutation (vsort s l) l.
+Proof. intros s l. split. apply vsort_sorted. apply vsort_perm. Qed.
+Print Assumptions C11_victim_order.
+
+Theorem C11_idle_victim_first :
+  forall c s t q r tl first x, getr s r = Some x -> r_mu x = None ->
+  (r_ref x = 0%N -> run_pc c s t (PFvR q (r :: tl) first) 0%Z = Some (goto s t (PExp q r), [])) /\
+  (r_ref x <> 0%N -> run_pc c s t (PFvR q (r :: tl) first) 0%Z =
+                      Some (goto s t (match tl with [] => PExp q first | _ => PFvR q tl first end), [])).
+Proof. intros c s t q r tl first x E M. split; intros R. eapply victim_idle; eauto. eapply victim_busy; eauto. Qed.
+Print Assumptions C11_idle_victim_first.
